@@ -11,9 +11,26 @@ Contracts attached to the real `chython.smarts(text)` and `QueryContainer.get_ma
      whose independently determined attributes satisfy the documented meaning.
  (3) stereo marks in queries: a query spelled with @/@@ (or / \\) matches a target iff the reference reader of C03 gives both the same
      configuration under the (unique) atom mapping.
-Violations are grouped in families: `smarts-exc:<Exc>@<file>:<function>[:documented-input]`, `smarts-accept:<reason>`,
-`smarts-reject:<Exc>@<file>:<function>`, `smarts-diff:<attribute>`, `smarts-match:false-hit:<attributes>`,
-`smarts-match:missed:<attributes of the query>`, `smarts-stereo:<context>` (witness = shortest input).
+ (4) whole strings (audit extension): strings built from templates (branches, ring closures carrying the bond primitive on either digit, %nn,
+     components, atom mapping, masked atoms, CXSMARTS radicals ^1..^7 on any atom): the built graph has exactly the written atoms (attributes,
+     numbering: mapping number / masked atoms above 10**9 / others in 1..10**9) and bonds (order list, ring mark); template strings with generic
+     atoms are also matched against molecules: the set of mappings equals the reference embeddings (oracles/o08_whole.py).  Bond texts are read in
+     eight surroundings (after a bracket atom, after a closure digit, in / after a branch, on an opening / closing digit, %nn, two-letter atoms).
+     Every string over a whole-string alphabet up to a length: raises-contract only.
+ (5) queries built through the Python API (QueryElement.from_symbol / from_atomic_number / AnyElement / ListElement / AnyMetal keyword values as
+     int, list, tuple; QueryContainer.add_atom(str | int | Element | Query), add_bond(int | tuple | list | set | Bond | QueryBond), copies,
+     QueryBond.from_bond, QueryElement.from_atom(atom, flag=True)): hits == atoms / pairs whose independent attributes satisfy the values passed.
+ (6) labels the predicates read (neighbors, heteroatoms, hybridization, ring_sizes, in_ring of atoms and bonds) after every public editing
+     operation of seeded scripts (add / delete atoms and bonds, special bonds, transactions, copy, substructure, split, union, remap with gaps,
+     kekule / thiele, explicit / implicit hydrogens) equal the independent attributes of a fresh container with the same atoms and bonds.
+Violations are grouped in families (witness = shortest input).  Every key carries an INPUT CLASS decided by an independent predicate on the input:
+`smarts-exc:<Exc>@<dir/file>:<function>:<class>` with class = documented-input | unsupported-<reason of the reference> | undetermined |
+bond:<...> | whole:<documented-input | duplicate-mapping | cx-radical-index-out-of-range | cx-radical-on-metal | blank | self-ring-closure |
+fuzz-with-cx-radical | fuzz | <anchor class>>; `smarts-accept:<reason>`, `smarts-reject:<Exc>@<file>:<function>`, `smarts-diff:[whole:]<attribute>`,
+`smarts-match:false-hit:<attributes>`, `smarts-match:missed:<attributes of the query>`, `smarts-match:whole:<false-hit|missed>:<template>`,
+`smarts-stereo:<context>[:creation-order-odd|even]`, `api-match:...`, `api-from_atom:<exc|match>:...:<flag>:<ring-atom|chain-atom>`,
+`labels-diff:<label>:after-<operation>`, `labels-diff:bond-in_ring:special-bond-between-ring-mates`, `labels-match:<label>:edited-molecule`.
+The notes of the evidence hold, for every family seen, how many inputs of the domain are members of its input class and how many of them fail.
 """
 import itertools
 import os
@@ -24,7 +41,8 @@ from vlib import env
 from vlib.report import pmap
 
 RULE = ('non-trivial = (a) bracket/bond string inside the documented subset whose built attributes were compared (key = string); '
-        '(b) (query, distinct independently determined atom or bond environment) pair with a verified hit (key = crc32 of both)')
+        '(b) (query, distinct independently determined atom or bond environment) pair with a verified hit (key = crc32 of both); '
+        '(c) whole string / API query / edit operation whose built graph, hits or labels were compared and found equal (key = text or crc32)')
 
 BR_FULL = ['C', 'N', 'O', 'Cl', 'Fe', 'A', 'M', '#6', '#8', 'c', 'Xx', 'H', ';', ',', 'D1', 'D2', 'D3', 'h0', 'h1', 'r5', 'r6', 'x1', 'z1', 'z2',
            'z4', 'a', '!R', 'R', 'X2', 'v3', 'D', 'D15', 'z5', 'r2', 'h', '+', '-', '++', '+2', '-3', '+5', '13', '0', '@', '@@', ':1', ':0',
@@ -34,7 +52,10 @@ BR_CHARS = list('CNAM#6;,Dhrxza!R12+-@:&0')
 BOND_CHARS = list('-=#:~,!;@/\\')
 # fixed, tier-independent inputs (shortest witnesses of every family reproduced on the pinned tree): same family key set in both tiers
 ANCHORS_BR = ['!;,', 'C;,', '+-', '+M', 'M+', '13A', '0A', '#!', '#120,', '#613,C', ',', 'C,', 'A;D15', 'A;D1,D1', '#120', '!', 'Xx', 'c', 'C&D2', 'C@@@', 'C+5',
-              'C:0', 'HH', 'A;z0', 'A;z5', 'A;r0', 'A;r2']
+              'C:0', 'HH', 'A;z0', 'A;z5', 'A;r0', 'A;r2', 'A;D!,',
+              # SMARTS outside the subset: recursive forms, atom negation, R / X / v / H / ^ primitives, hydrogen counts, wildcard, aromatic symbols
+              '$(CC)', 'C;$(CC)', 'C;$([C;D1])', '$([C;D1]);D2', '!C', '!#6', 'C;!D1', 'C;!r5', 'C;R', 'C;R2', 'C;X4', 'C;v4', 'C;H1', 'CH3', 'CH', 'C;^2', '*', '*;D2',
+              'nH', 'se', 'as', 'c;a', 'n', 'C;D2&h1', 'C;D{1-2}', 'C;D>1', '#6;a', 'C,N;D1,h1']
 ANCHORS_BOND = ['!~', '#;@;@', '=;@;@']
 
 _S = {}
@@ -48,7 +69,8 @@ def _setup():
     from chython.exceptions import IncorrectSmiles
     from chython.periodictable import AnyElement, AnyMetal, ListElement, QueryElement
     from oracles import o08_refsmarts as Q
-    _S.update(smarts=smarts, smiles=smiles, Bad=IncorrectSmiles, Q=Q, AnyElement=AnyElement, AnyMetal=AnyMetal, ListElement=ListElement,
+    from oracles import o08_whole as W
+    _S.update(smarts=smarts, smiles=smiles, Bad=IncorrectSmiles, Q=Q, W=W, AnyElement=AnyElement, AnyMetal=AnyMetal, ListElement=ListElement,
               QueryElement=QueryElement, repo=os.path.abspath(env.REPO) + os.sep)
     return _S
 
@@ -59,14 +81,29 @@ def _where(e):
     for fr, _ in traceback.walk_tb(e.__traceback__):
         fn = os.path.abspath(fr.f_code.co_filename)
         if fn.startswith(repo):
-            last = f'{fn[len(repo):]}:{fr.f_code.co_name}'
+            last = f'{"/".join(fn[len(repo):].split(os.sep)[-2:])}:{fr.f_code.co_name}'
     return last or 'outside-tree'
+
+
+def _input_class(verdict):
+    """input class of a string, decided by the reference reading alone (never by what the library did): part of every smarts-exc key, so that
+    the same exception at the same place on another class of inputs is a different family.  documented-input: inside the documented subset;
+    unsupported-<reason>: documented as unsupported (the last sentence of the property speaks about these: one class per reason);
+    undetermined: the docstring does not determine the string (only the raises-contract applies; one class)"""
+    if verdict == 'accept':
+        return 'documented-input'
+    kind, reason = verdict.split(':', 1)
+    return 'unsupported-' + reason if kind == 'reject' else 'undetermined'
 
 
 # ---- (1) parsing ----------------------------------------------------------------------------------------------------------
 def atom_view(q):
-    S = _S
     (n, a), = q._atoms.items()
+    return _view_of(n, a)
+
+
+def _view_of(n, a):
+    S = _S
     v = dict(kind=None, elements=(), isotope=None, charge=0, stereo=None, neighbors=(), implicit_hydrogens=(), heteroatoms=(),
              hybridization=(), ring_sizes=(), masked=False, number=n)
     if isinstance(a, S['AnyMetal']):
@@ -106,7 +143,7 @@ def judge_bracket(body):
             return 'violation', f'smarts-reject:{type(e).__name__}@{_where(e)}', f'documented SMARTS rejected: {type(e).__name__}: {e}'
         return 'rejected', None, verdict
     except Exception as e:
-        fam = f'smarts-exc:{type(e).__name__}@{_where(e)}' + (':documented-input' if verdict == 'accept' else '')
+        fam = f'smarts-exc:{type(e).__name__}@{_where(e)}:{_input_class(verdict)}'
         return 'violation', fam, f'{type(e).__name__}: {e} (reference: {verdict})'
     if verdict.startswith('unspecified'):
         return 'unspecified', None, verdict
@@ -149,7 +186,7 @@ def judge_bond(text):
             return 'violation', f'smarts-reject:{type(e).__name__}@{_where(e)}', f'documented SMARTS rejected: {type(e).__name__}: {e}'
         return 'rejected', None, verdict
     except Exception as e:
-        fam = f'smarts-exc:{type(e).__name__}@{_where(e)}' + (':documented-input' if verdict == 'accept' else '')
+        fam = f'smarts-exc:{type(e).__name__}@{_where(e)}:bond:{_input_class(verdict)}'
         return 'violation', fam, f'{type(e).__name__}: {e} (reference: {verdict})'
     if verdict.startswith('unspecified'):
         return 'unspecified', None, verdict
@@ -179,9 +216,23 @@ class _Acc:
     def __init__(self):
         self.n, self.keys, self.stat, self.fam, self.samples = 0, [], {}, {}, []
 
+    def member(self, cls):
+        k = 'class-members:' + cls
+        self.stat[k] = self.stat.get(k, 0) + 1
+
     def note(self, s, res, keep=True):
         st, fam, det = res
         self.n += 1
+        # members of the input class (decided by the reference verdict alone) - the denominators of the tightness table of the known families
+        if st == 'violation':
+            if fam.startswith('smarts-exc:'):
+                self.member(fam.split(':', 3)[3])
+        elif st == 'accepted':
+            self.member('documented-input')
+        elif det.startswith('x:'):
+            self.member('whole:' + det[2:])
+        else:
+            self.member(_input_class(det))
         if st == 'violation':
             self.push(fam, s, det)
         elif st == 'accepted':
@@ -272,6 +323,7 @@ def build_queries():
                 for p1 in PRIMS[k1]:
                     for p2 in PRIMS[k2]:
                         texts.append(f'{b};{p1};{p2}')
+    texts += MATCH_EXTRA
     for c in CHARGED:
         texts.append(c)
         for p in ('D1', 'D3', 'h0', 'h2', 'x0', 'z1', '!R'):
@@ -289,7 +341,15 @@ def build_queries():
     for a1 in PAIR_ATOMS:
         for a2 in PAIR_ATOMS:
             for b in PAIR_BONDS:
-                out.append((f'[{a1}]{b}[{a2}]', 'pair', (Q.read_bracket(a1), Q.read_bond(b), Q.read_bracket(a2)), False))
+                out.append((f'[{a1}]{b}[{a2}]', 'pair', (Q.read_bracket(a1), Q.read_bond(b), Q.read_bracket(a2)), (False, False)))
+    from bounded.d08_extra import bond_texts
+    for b in bond_texts():   # every determined bond text (lists in both orders, all four not-bonds, each bare / ;@ / ;!@) on a reduced atom set
+        if b in PAIR_BONDS:
+            continue
+        for a1, a2 in PAIR2_ATOMS:
+            out.append((f'[{a1}]{b}[{a2}]', 'pair', (Q.read_bracket(a1), Q.read_bond(b), Q.read_bracket(a2)), (False, False)))
+    for text, a1, b, a2, rad in RAD_PAIRS:
+        out.append((text, 'pair', (Q.read_bracket(a1), Q.read_bond(b), Q.read_bracket(a2)), rad))
     return out
 
 
@@ -362,16 +422,19 @@ def _w_match(args):
                         continue
                     x, y = tuple(k)
                     for u, v in ((x, y), (y, x)):
-                        if Q.atom_matches(r1, atoms[u]) and Q.atom_matches(r2, atoms[v]):
+                        if Q.atom_matches(r1, atoms[u], rad[0]) and Q.atom_matches(r2, atoms[v], rad[1]):
                             exp.add((u, v))
                 if hits != exp:
+                    chord = lambda u, v: mol.has_bond(u, v) and _S['W'].special_chord(mol, frozenset((u, v)))
                     for u, v in sorted(hits - exp):
                         be = bonds.get(frozenset((u, v)))
                         why = 'not-bonded' if be is None else ('bond-order' if be['order'] not in rb['order'] else
                                                                 ('bond-in_ring' if not Q.bond_matches(rb, be) else 'atom'))
-                        push(f'smarts-match:false-hit:pair:{why}', text, f'{text} hits pair {(u, v)} of {smi}: bond {be}, atoms {atoms[u]} {atoms[v]}')
+                        push('labels-diff:bond-in_ring:special-bond-between-ring-mates' if why == 'bond-in_ring' and chord(u, v) else
+                             f'smarts-match:false-hit:pair:{why}', text, f'{text} hits pair {(u, v)} of {smi}: bond {be}, atoms {atoms[u]} {atoms[v]}')
                     for u, v in sorted(exp - hits):
-                        push('smarts-match:missed:pair:' + ('ring-bond' if rb['in_ring'] is not None else 'bond'), text,
+                        push('labels-diff:bond-in_ring:special-bond-between-ring-mates' if rb['in_ring'] is not None and chord(u, v) else
+                             'smarts-match:missed:pair:' + ('ring-bond' if rb['in_ring'] is not None else 'bond'), text,
                              f'{text} misses pair {(u, v)} of {smi}: bond {bonds[frozenset((u, v))]}')
                 else:
                     qh = zlib.crc32(text.encode())
@@ -391,16 +454,39 @@ def stereo_cases():
             out.append((f'[C{mark}]({p[0]})({p[1]})({p[2]}){p[3]}', 'first-atom'))
         for p in itertools.permutations(['F', 'Cl', 'Br']):
             out.append((f'{p[0]}[C{mark}]({p[1]}){p[2]}', 'three-neighbours'))
-        for q in (f'F[C{mark}]1(Cl)CCO1', f'[C{mark}]1(F)(Cl)CCO1', f'O1CC[C{mark}]1(F)Cl', f'Cl[C{mark}]1(F)CCO1',
-                  f'C1C[C{mark}](F)(Cl)O1', f'F[C{mark}]1(Cl)CCCO1', f'Cl[C{mark}]1(F)OCC1'):
-            out.append((q, 'ring-closure'))
+        for x, y in (('F', 'Cl'), ('Cl', 'F')):
+            for tpl in ('{x}[C{m}]1({y})CCO1', '[C{m}]1({x})({y})CCO1', 'O1CC[C{m}]1({x}){y}', 'C1C[C{m}]({x})({y})O1', '{x}[C{m}]1({y})CCCO1', '{x}[C{m}]1({y})OCC1',
+                        'C1O[C{m}]({x})({y})C1', '[C{m}]1({x})({y})OCC1', 'O1[C{m}]({x})({y})CC1', 'C1CO[C{m}]1({x}){y}', '{x}[C{m}]1({y})CCC1O', 'OC1CC[C{m}]1({x}){y}'):
+                out.append((tpl.format(x=x, y=y, m=mark), 'ring-closure'))
+        nums = (9, 2, 7, 1, 4)
+        for k, p in enumerate(itertools.permutations(subs)):   # atom numbers given by mapping, not 1..N in written order
+            a, b, c, d, e = nums[k % 5:] + nums[:k % 5]
+            out.append((f'[{p[0]}:{a}][C{mark}:{b}]([{p[1]}:{c}])([{p[2]}:{d}])[{p[3]}:{e}]', 'mapped-numbers'))
+        for p in itertools.permutations(['F', 'Cl', 'Br']):
+            out.append((f'{p[0]}[C{mark}]({p[1]}){p[2]}', 'explicit-hydrogen-target'))
+            out.append((f'{p[0]}[C{mark}]([H])({p[1]}){p[2]}', 'explicit-hydrogen-target'))
     targets = {'chain': ['F[C@](Cl)(Br)I', 'F[C@@](Cl)(Br)I', 'FC(Cl)(Br)I'], 'first-atom': ['F[C@](Cl)(Br)I', 'F[C@@](Cl)(Br)I'],
                'three-neighbours': ['F[C@H](Cl)Br', 'F[C@@H](Cl)Br', 'FC(Cl)Br'],
-               'ring-closure': ['F[C@]1(Cl)CCO1', 'F[C@@]1(Cl)CCO1', 'FC1(Cl)CCO1', 'F[C@]1(Cl)CCCO1', 'F[C@@]1(Cl)CCCO1']}
+               'ring-closure': ['F[C@]1(Cl)CCO1', 'F[C@@]1(Cl)CCO1', 'FC1(Cl)CCO1', 'F[C@]1(Cl)CCCO1', 'F[C@@]1(Cl)CCCO1', 'F[C@]1(Cl)CCC1O', 'F[C@@]1(Cl)CCC1O'],
+               'mapped-numbers': ['F[C@](Cl)(Br)I', 'F[C@@](Cl)(Br)I', 'FC(Cl)(Br)I', 'I[C@@](Br)(Cl)F'],
+               'explicit-hydrogen-target': ['F[C@]([H])(Cl)Br', 'F[C@@]([H])(Cl)Br', '[H][C@](F)(Cl)Br', 'F[C@H](Cl)Br', 'FC([H])(Cl)Br']}
     cases = [(q, t, ctx) for q, ctx in out for t in targets[ctx]]
     for q in ('F/C=C/F', 'F/C=C\\F', 'F\\C=C\\F', 'F\\C=C/F', 'F/C=C/Cl', 'Cl\\C=C/F', 'F/C(Cl)=C/F', 'F/C(Cl)=C(/F)Br', 'C(\\F)=C/F', 'C(/F)=C/F'):
         for t in ('F/C=C/F', 'F/C=C\\F', 'FC=CF', 'F/C=C/Cl', 'F/C=C\\Cl', 'F/C(Cl)=C/F', 'F/C(Cl)=C\\F', 'F/C(Cl)=C(/F)Br', 'F/C(Cl)=C(\\F)Br'):
             cases.append((q, t, 'cis-trans'))
+    # allenes: the oracle is the molecule reader of the library itself (C03 / C12): a complete allene query matches iff both texts are one stereoisomer
+    al = []
+    for mark in ('@', '@@'):
+        for a, b in (('F', 'Cl'), ('Cl', 'F')):
+            for c, d in (('Br', 'I'), ('I', 'Br')):
+                al.append(f'{a}C({b})=[C{mark}]=C({c}){d}')
+            al.append(f'{a}C({b})=[C{mark}]=CBr')
+            al.append(f'BrC=[C{mark}]=C({a}){b}')
+        al.append(f'[C{mark}](=C(F)Cl)=C(Br)I')
+    for q in al:
+        for t in al:
+            cases.append((q, t, 'allene'))
+        cases.append((q, q.replace('@', ''), 'allene'))
     return cases
 
 
@@ -416,6 +502,9 @@ def _config(rm, query=False):
             if a.chiral and i not in done and len(a.order) == 3 and not a.hcount:
                 tets.append((i, list(a.order) + ['H'], a.chiral))
     for i, nb, mark in tets:
+        hs = [x for x in nb if x != 'H' and rm.atoms[x].element == 'H' and len(rm.neighbors(x)) == 1]
+        if len(hs) == 1 and 'H' not in nb:   # one explicit hydrogen atom: it occupies the hydrogen slot at its written position
+            nb = ['H' if x == hs[0] else x for x in nb]
         envn = [x for x in nb if x != 'H']
         s = _expected_sign(nb, mark)
         lab = sorted(envn, key=lambda x: _label(rm, x, i))
@@ -434,15 +523,16 @@ def _label(rm, x, centre):
 
 def _w_stereo(cases):
     S = _setup()
+    W = S['W']
     from oracles import o03_refsmiles as R
-    n, keys, fam = 0, [], {}
+    n, keys, fam, members = 0, [], {}, {}
+
+    def push(f, q, det):
+        lst = fam.setdefault(f, [0, []])
+        lst[0] += 1
+        lst[1] = sorted(lst[1] + [(len(q), q, det)])[:5]
     for q, t, ctx in cases:
         n += 1
-        rq, rt = R.read(q).mols[0], R.read(t).mols[0]
-        cq, ct = _config(rq, True), _config(rt)
-        if not cq:
-            continue
-        graph_ok = True
         try:
             query = S['smarts'](q)
             mol = S['smiles'](t)
@@ -450,21 +540,788 @@ def _w_stereo(cases):
             graph_ok = any(True for _ in plain.get_mapping(mol, _cython=False))
             hit = any(True for _ in query.get_mapping(mol, automorphism_filter=False, _cython=False))
         except Exception as e:
-            lst = fam.setdefault(f'smarts-stereo-exc:{type(e).__name__}@{_where(e)}', [0, []])
-            lst[0] += 1
-            lst[1] = sorted(lst[1] + [(len(q), q, f'{type(e).__name__}: {e} on target {t}')])[:5]
+            push(f'smarts-stereo-exc:{type(e).__name__}@{_where(e)}:{ctx}', q, f'{type(e).__name__}: {e} on target {t}')
             continue
-        # expected: the constitution matches and every configuration the query spells is present with the same sign in the target
-        exp = graph_ok and all(k in ct and ct[k] == v for k, v in cq.items())
-        if graph_ok and ct and not all(k in ct for k in cq):
-            continue   # the two spellings mark different substituents: not comparable through labels
+        if ctx == 'allene':
+            if len(query) != len(mol):
+                continue   # the oracle compares whole molecules: only complete queries
+            mq = S['smiles'](q)
+            exp = graph_ok and str(mq) == str(mol) and any(a.stereo is not None for _, a in mol.atoms())
+            cq = ct = 'canonical strings of the molecule reader'
+            key = f'smarts-stereo:{ctx}'
+        else:
+            rq, rt = R.read(q).mols[0], R.read(t).mols[0]
+            cq, ct = _config(rq, True), _config(rt)
+            if not cq:
+                continue
+            # expected: the constitution matches and every configuration the query spells is present with the same sign in the target
+            exp = graph_ok and all(k in ct and ct[k] == v for k, v in cq.items())
+            if graph_ok and ct and not all(k in ct for k in cq):
+                continue   # the two spellings mark different substituents: not comparable through labels
+            key = f'smarts-stereo:{ctx}'
+            if ctx == 'ring-closure':
+                # input class of the known family: the bonds of the centre come to exist in an order that is an odd permutation of the written one
+                odd = any(W.creation_parity(rq, i) for i, a in enumerate(rq.atoms) if a.chiral)
+                key += ':creation-order-odd' if odd else ':creation-order-even'
+                if graph_ok and ct:
+                    mm = members.setdefault(key, [0, 0])
+                    mm[0] += 1
+                    mm[1] += hit != exp
         if hit != exp:
-            lst = fam.setdefault(f'smarts-stereo:{ctx}', [0, []])
-            lst[0] += 1
-            lst[1] = sorted(lst[1] + [(len(q), q, f'query {q} on target {t}: matched={hit}, expected={exp} (query configuration {cq}, target {ct})')])[:5]
+            push(key, q, f'query {q} on target {t}: matched={hit}, expected={exp} (query configuration {cq}, target {ct})')
         else:
             keys.append(f'stereo:{q}|{t}')
+    return n, keys, fam, members
+
+
+# ---- (4) whole SMARTS strings: branches, ring closures with bond primitives, components, atom numbering, CXSMARTS radicals ------------
+def _ref_atom(text):
+    Q = _S['Q']
+    if text.startswith('['):
+        return Q.read_bracket(text[1:-1])
+    return Q.read_bracket(text)   # organic-subset symbol outside brackets = the element alone
+
+
+def _cmp_atom(n, a, ref, radical):
+    """first attribute of the built query atom that differs from the reference reading, or None"""
+    v = _view_of(n, a)
+    for k in ('kind', 'elements', 'isotope', 'charge', 'stereo', 'neighbors', 'implicit_hydrogens', 'heteroatoms', 'hybridization', 'ring_sizes', 'masked'):
+        if k == 'elements':
+            ok = sorted(v[k]) == sorted(ref[k]) if ref['kind'] == 'list' else v[k] == ref[k]
+        elif k == 'isotope':
+            ok = (v[k] or None) == ref[k]
+        else:
+            ok = v[k] == ref[k]
+        if not ok:
+            return k, f'{k}: built {v[k]!r}, documented {ref[k]!r}'
+    if v['kind'] != 'metal' and bool(v['radical']) != radical:
+        return 'radical', f'radical: built {v["radical"]!r}, CXSMARTS says {radical}'
+    return None
+
+
+def whole_class(rec, refs):
+    """input class of a template string, decided on the written text alone: documented-input / duplicate-mapping /
+    cx-radical-index-out-of-range / cx-radical-on-metal (the generator writes at most one anomaly into a string)"""
+    maps = [r['mapping'] for r in refs if r['mapping']]
+    dup = len(set(maps)) != len(maps)
+    oor = any(i >= len(refs) for i in rec['radicals'])
+    met = any(refs[i]['kind'] == 'metal' for i in rec['radicals'] if i < len(refs))
+    cls = [c for c, on in (('duplicate-mapping', dup), ('cx-radical-index-out-of-range', oor), ('cx-radical-on-metal', met)) if on]
+    assert cls == ([rec['anomaly']] if rec['anomaly'] else []), (rec, cls)
+    return cls[0] if cls else 'documented-input'
+
+
+def judge_whole(rec):
+    """-> (status, family, detail) for a template string of bounded/d08_extra.py"""
+    S = _S or _setup()
+    Q = S['Q']
+    from chython.exceptions import MappingError
+    refs = [_ref_atom(t) for t in rec['atoms']]
+    cls = whole_class(rec, refs)
+    text = rec['text']
+    try:
+        q = S['smarts'](text)
+    except S['Bad'] as e:
+        if cls == 'documented-input':
+            return 'violation', f'smarts-reject:{type(e).__name__}@{_where(e)}:whole', f'documented SMARTS rejected: {type(e).__name__}: {e}'
+        return 'rejected', None, 'x:' + cls
+    except MappingError as e:
+        if cls == 'duplicate-mapping':
+            return 'rejected', None, 'x:' + cls   # stated assumption: the library's own mapping error is a deliberate rejection
+        return 'violation', f'smarts-exc:MappingError@{_where(e)}:whole:{cls}', f'MappingError: {e}'
+    except Exception as e:
+        return 'violation', f'smarts-exc:{type(e).__name__}@{_where(e)}:whole:{cls}', f'{type(e).__name__}: {e}'
+    if cls == 'cx-radical-on-metal':
+        return 'unspecified', None, 'x:' + cls
+    if cls != 'documented-input':
+        return 'violation', f'smarts-accept:whole:{cls}', f'accepted: {_atoms_repr(q)}'
+    nums = list(q._atoms)
+    if len(nums) != len(refs):
+        return 'violation', 'smarts-diff:whole:atom-count', f'{len(nums)} atoms built, {len(refs)} written'
+    for i, (n, ref) in enumerate(zip(nums, refs)):
+        d = _cmp_atom(n, q._atoms[n], ref, i in rec['radicals'])
+        if d:
+            return 'violation', f'smarts-diff:whole:{d[0]}', f'atom {i} ({rec["atoms"][i]}) {d[1]}'
+        if ref['mapping']:
+            if n != ref['mapping']:
+                return 'violation', 'smarts-diff:whole:mapping', f'atom {i} number {n} != mapping {ref["mapping"]}'
+        elif (n > 10 ** 9) != ref['masked'] or n < 1:
+            return 'violation', 'smarts-diff:whole:masked-number', f'atom {i} number {n}, masked {ref["masked"]}'
+    built = {}
+    for n, m, b in q.bonds():
+        built[frozenset((n, m))] = b
+    exp = {frozenset((nums[i], nums[j])): (i, j, t) for i, j, t in rec['bonds']}
+    if set(built) != set(exp):
+        return 'violation', 'smarts-diff:whole:bond-set', (f'bonds built {sorted(tuple(sorted(k)) for k in built)}, written '
+                                                             f'{sorted(tuple(sorted(k)) for k in exp)}')
+    for k, (i, j, t) in exp.items():
+        b = built[k]
+        if b.stereo is not None:
+            return 'violation', 'smarts-diff:whole:bond-stereo', f'bond {i}-{j} stereo {b.stereo} without directional bonds'
+        if t == '':
+            continue   # implicit bond: the docstring does not determine its meaning
+        rb = Q.read_bond(t)
+        if tuple(b.order) != rb['order']:
+            return 'violation', 'smarts-diff:whole:bond-order', f'bond {i}-{j} written {t!r}: built {b.order}, documented {rb["order"]}'
+        if b.in_ring != rb['in_ring']:
+            return 'violation', 'smarts-diff:whole:bond-in_ring', f'bond {i}-{j} written {t!r}: built in_ring {b.in_ring}, documented {rb["in_ring"]}'
+    return 'accepted', None, None
+
+
+def _w_whole(recs):
+    _setup()
+    acc = _Acc()
+    for rec in recs:
+        acc.note(rec['text'], judge_whole(rec), keep=True)
+    return acc.result()
+
+
+def _w_fuzz(args):
+    """raises-contract only: every string over the whole-string alphabet either parses or raises the invalid-SMARTS error"""
+    alphabet, prefix, depth = args
+    S = _setup()
+    from chython.exceptions import MappingError
+    from bounded.d08_extra import fuzz_class
+    acc = _Acc()
+    base = ''.join(prefix)
+    for k in range(depth + 1):
+        for suf in itertools.product(alphabet, repeat=k):
+            t = base + ''.join(suf)
+            acc.n += 1
+            cls = fuzz_class(t)
+            acc.member('whole:' + cls)
+            try:
+                S['smarts'](t)
+            except (S['Bad'], MappingError):
+                continue
+            except Exception as e:
+                acc.push(f'smarts-exc:{type(e).__name__}@{_where(e)}:whole:{cls}', t, f'{type(e).__name__}: {e}')
+    return acc.result()
+
+
+def _w_whole_anchors(_):
+    S = _setup()
+    from bounded.d08_extra import WHOLE_ANCHORS
+    from chython.exceptions import MappingError
+    acc = _Acc()
+    for t, cls in WHOLE_ANCHORS:
+        acc.n += 1
+        acc.member('whole:' + cls)
+        try:
+            S['smarts'](t)
+        except (S['Bad'], MappingError):
+            continue
+        except Exception as e:
+            acc.push(f'smarts-exc:{type(e).__name__}@{_where(e)}:whole:{cls}', t, f'{type(e).__name__}: {e}')
+    return acc.result()
+
+
+def _w_wmatch(args):
+    """template strings matched against molecules: library mappings == reference embeddings"""
+    S = _setup()
+    Q = S['Q']
+    from oracles import o08_whole as W
+    recs, nmol = args
+    mols = _QC['mols']
+    views = _QC.setdefault('views', {})
+    n, keys, fam = 0, set(), {}
+    for rec in recs:
+        refs = [(_ref_atom(t), i in rec['radicals']) for i, t in enumerate(rec['atoms'])]
+        qb = {(min(i, j), max(i, j)): Q.read_bond(t) for i, j, t in rec['bonds']}
+        q = S['smarts'](rec['text'])
+        nums = list(q._atoms)
+        r = __import__('random').Random(f'{env.SEED}-{rec["text"]}')
+        for mi in r.sample(range(len(mols)), min(nmol, len(mols))):
+            smi, mol = mols[mi]
+            if len(mol) > 60:
+                continue
+            if mi not in views:
+                views[mi] = W.target_view(mol)
+            n += 1
+            try:
+                got = {tuple(m[x] for x in nums) for m in q.get_mapping(mol, automorphism_filter=False, _cython=False)}
+            except Exception as e:
+                f = f'smarts-match-exc:{type(e).__name__}@{_where(e)}'
+                lst = fam.setdefault(f, [0, []])
+                lst[0] += 1
+                lst[1] = sorted(lst[1] + [(len(rec['text']) + len(smi), rec['text'], f'{type(e).__name__}: {e} on {smi}', smi)])[:5]
+                continue
+            exp = W.embeddings(refs, qb, views[mi])
+            if got != exp:
+                extra, miss = sorted(got - exp), sorted(exp - got)
+                bad = (extra or miss)[0]
+                f = 'smarts-match:whole:' + ('false-hit' if extra else 'missed') + ':' + rec['shape']
+                if any(W.special_chord(mol, frozenset((bad[i], bad[j]))) for i, j, _ in rec['bonds'] if mol.has_bond(bad[i], bad[j])):
+                    f = 'labels-diff:bond-in_ring:special-bond-between-ring-mates'
+                lst = fam.setdefault(f, [0, []])
+                lst[0] += 1
+                lst[1] = sorted(lst[1] + [(len(rec['text']) + len(smi), rec['text'],
+                                           f'{rec["text"]} on {smi}: extra mappings {extra[:3]}, missing {miss[:3]}', smi)])[:5]
+            elif exp:
+                keys.add(zlib.crc32((rec['text'] + '|' + smi).encode()))
+    return n, list(keys), fam, []
+
+
+# ---- (5) queries built through the Python API ------------------------------------------------------------------------------------
+def _tup(v):
+    if v is None:
+        return ()
+    if isinstance(v, int):
+        return (v,)
+    return tuple(sorted(v))
+
+
+API_ATOMS = [
+    ('sym', 'C', {}), ('sym', 'N', {'neighbors': 2}), ('sym', 'C', {'neighbors': [1, 2]}), ('sym', 'C', {'neighbors': (3, 2)}),
+    ('num', 8, {'implicit_hydrogens': 1}), ('num', 8, {'implicit_hydrogens': [0, 1]}), ('sym', 'C', {'hybridization': 4}),
+    ('sym', 'C', {'hybridization': [2, 4]}), ('sym', 'C', {'ring_sizes': 0}), ('sym', 'C', {'ring_sizes': 5}), ('sym', 'C', {'ring_sizes': [6, 5]}),
+    ('sym', 'N', {'heteroatoms': 0}), ('sym', 'C', {'heteroatoms': (1, 2)}), ('sym', 'N', {'charge': 1}), ('sym', 'O', {'charge': -1}),
+    ('sym', 'C', {'is_radical': True}), ('sym', 'C', {'isotope': 13}), ('sym', 'H', {'isotope': 2}), ('num', 26, {'charge': 2}),
+    ('any', None, {}), ('any', None, {'neighbors': 0}), ('any', None, {'neighbors': [3, 4]}), ('any', None, {'hybridization': 3}),
+    ('any', None, {'ring_sizes': 0}), ('any', None, {'ring_sizes': (3, 4)}), ('any', None, {'implicit_hydrogens': 3}),
+    ('any', None, {'heteroatoms': [2, 3]}), ('any', None, {'charge': -1, 'neighbors': 1, 'heteroatoms': 0}),
+    ('any', None, {'is_radical': True, 'implicit_hydrogens': [2, 3]}), ('any', None, {'charge': 2}),
+    ('list', ['N', 'O'], {}), ('list', [6, 'S'], {'neighbors': [2, 3]}), ('list', ('Cl', 'Br', 9), {}), ('list', ['N', 'O'], {'charge': 1}),
+    ('list', [7, 8, 16], {'hybridization': [2, 4], 'ring_sizes': [5, 6]}), ('list', ['C', 'N'], {'is_radical': True}),
+    ('metal', None, {}), ('metal', None, {'neighbors': [0, 1]}), ('metal', None, {'hybridization': 1}), ('metal', None, {'neighbors': 4}),
+    ('sym', 'C', {'neighbors': 3, 'hybridization': [2, 4], 'ring_sizes': [5, 6], 'implicit_hydrogens': 0, 'heteroatoms': [0, 1]}),
+    ('add', 'C', {}), ('add', 7, {}), ('add', 'A', {}), ('add', 'M', {}), ('add', 'Cl', {}), ('add', 92, {}),
+]
+API_ELEMENT_SOURCES = ['[NH4+]', '[13CH4]', '[CH3]', '[O-]C', '[Fe+2]']   # first atom is passed as Element object to add_atom
+API_BONDS = [1, 2, 3, 4, 8, (1, 2), [2, 4], {1, 3}, (1, 8), 'Bond2', ('QB', 1, True), ('QB', (1, 2), False), ('QB', [4], True), ('QB', 8, None),
+             ('QB', (8, 1), False), ('QB', {2, 3}, None), ('from_bond', 'c1ccccc1', True), ('from_bond', 'CC', True), ('from_bond', 'C=C', False)]
+
+
+def _api_ref(kind, arg, kw):
+    from oracles.o03_refsmiles import SYMBOLS
+    ref = dict(kind=None, elements=(), isotope=kw.get('isotope'), charge=kw.get('charge', 0), stereo=None, mapping=0,
+               neighbors=_tup(kw.get('neighbors')), implicit_hydrogens=_tup(kw.get('implicit_hydrogens')), heteroatoms=_tup(kw.get('heteroatoms')),
+               hybridization=_tup(kw.get('hybridization')), ring_sizes=_tup(kw.get('ring_sizes')), masked=False)
+    sym = lambda x: SYMBOLS[x - 1] if isinstance(x, int) else x
+    if kind in ('sym', 'num', 'add'):
+        s = sym(arg)
+        ref['kind'] = 'any' if s == 'A' else ('metal' if s == 'M' else 'element')
+        if ref['kind'] == 'element':
+            ref['elements'] = (s,)
+    elif kind == 'any':
+        ref['kind'] = 'any'
+    elif kind == 'list':
+        ref['kind'], ref['elements'] = 'list', tuple(sym(x) for x in arg)
+    else:
+        ref['kind'] = 'metal'
+    return ref, bool(kw.get('is_radical', False))
+
+
+def _api_atom(kind, arg, kw):
+    from chython.periodictable import AnyElement, AnyMetal, ListElement, QueryElement
+    if kind == 'sym':
+        return QueryElement.from_symbol(arg)(**kw)
+    if kind == 'num':
+        return QueryElement.from_atomic_number(arg)(**kw)
+    if kind == 'any':
+        return AnyElement(**kw)
+    if kind == 'list':
+        return ListElement(arg, **kw)
+    if kind == 'metal':
+        return AnyMetal(**kw)
+    return arg   # 'add': the container converts str / int itself
+
+
+def _api_bond(spec):
+    """-> (object passed to add_bond, reference bond)"""
+    from chython.containers.bonds import Bond, QueryBond
+    if spec == 'Bond2':
+        return Bond(2), dict(order=(2,), in_ring=None)
+    if isinstance(spec, tuple) and spec and spec[0] == 'QB':
+        return QueryBond(spec[1], in_ring=spec[2]), dict(order=tuple(sorted(set(_tup(spec[1])))), in_ring=spec[2])
+    if isinstance(spec, tuple) and spec and spec[0] == 'from_bond':
+        m = _S['smiles'](spec[1])
+        b = m.bond(1, 2)
+        o = int(b)
+        ring = len(m) > 2   # the three source molecules: benzene (ring bond), ethane / ethene (chain bond) - known by construction
+        return QueryBond.from_bond(b, in_ring=spec[2]), dict(order=(o,), in_ring=ring if spec[2] else None)
+    return spec, dict(order=tuple(sorted(set(_tup(spec)))), in_ring=None)
+
+
+def api_queries():
+    """-> [(label, QueryContainer, kind, refs)] kind 'atom': refs = (ref, radical); kind 'pair': refs = ((ref, rad), bond ref, (ref, rad))"""
+    S = _setup()
+    from chython.containers import QueryContainer
+    out = []
+    for kind, arg, kw in API_ATOMS:
+        q = QueryContainer(f'api:{kind}:{arg}:{kw}')
+        q.add_atom(_api_atom(kind, arg, dict(kw)), 5)
+        out.append((str(q), q, 'atom', _api_ref(kind, arg, kw)))
+    for k, (kind, arg, kw) in enumerate(API_ATOMS[:41:4]):
+        q = QueryContainer(f'api-copy:{kind}:{arg}:{kw}')
+        q.add_atom(_api_atom(kind, arg, dict(kw)))
+        out.append((str(q), q.copy(), 'atom', _api_ref(kind, arg, kw)))
+    for s in API_ELEMENT_SOURCES:
+        a = S['smiles'](s).atom(1)
+        q = QueryContainer(f'api:element-object:{s}')
+        q.add_atom(a, 3)   # documented: only charge, radical, isotope are transferred
+        ref, _ = _api_ref('sym', a.atomic_symbol, {'charge': a.charge, 'isotope': a.isotope})
+        out.append((str(q), q, 'atom', (ref, bool(a.is_radical))))
+    anyref = _api_ref('any', None, {})
+    for spec in API_BONDS:
+        from chython.periodictable import AnyElement
+        for a1, a2 in ((('any', None, {}), ('any', None, {})), (('sym', 'C', {}), ('list', ['N', 'O', 'Pt'], {}))):
+            obj, rb = _api_bond(spec)
+            q = QueryContainer(f'api-bond:{spec!r}:{a1[0]}-{a2[0]}')
+            q.add_atom(_api_atom(*a1), 2)
+            q.add_atom(_api_atom(*a2), 1)
+            q.add_bond(2, 1, obj)
+            out.append((str(q), q, 'pair', (_api_ref(*a1), rb, _api_ref(*a2))))
+    return out
+
+
+FROM_ATOM_FLAGS = ('neighbors', 'hybridization', 'heteroatoms', 'hydrogens', 'ring_sizes')
+
+
+def _w_api(idx):
+    S = _setup()
+    Q = S['Q']
+    from oracles import o08_whole as W
+    from oracles.o03_refsmiles import SYMBOLS
+    from chython.containers import QueryContainer
+    from chython.periodictable import QueryElement
+    if 'api' not in _QC:
+        _QC['api'] = api_queries()
+    n, keys, fam = 0, set(), {}
+
+    def push(f, text, det, smi):
+        lst = fam.setdefault(f, [0, []])
+        lst[0] += 1
+        lst[1] = sorted(lst[1] + [(len(text) + len(smi), text, det, smi)])[:5]
+    for mi in idx:
+        smi, mol = _QC['mols'][mi]
+        atoms, bonds = Q.environment(mol)
+        for label, q, kind, refs in _QC['api']:
+            n += 1
+            try:
+                maps = list(q.get_mapping(mol, automorphism_filter=False, _cython=False))
+            except Exception as e:
+                push(f'api-match-exc:{type(e).__name__}@{_where(e)}', label, f'{type(e).__name__}: {e} on {smi}', smi)
+                continue
+            nums = list(q._atoms)
+            if kind == 'atom':
+                ref, rad = refs
+                hits = {m[nums[0]] for m in maps}
+                exp = {a for a, e in atoms.items() if Q.atom_matches(ref, e, rad)}
+                if hits != exp:
+                    bad = sorted(hits ^ exp)[0]
+                    push('api-match:atom:' + ('false-hit:' + '+'.join(Q.failed(ref, atoms[bad], rad)) if bad in hits else 'missed:' + '+'.join(_spec(ref))),
+                         label, f'{label} on {smi}: hits {sorted(hits)} expected {sorted(exp)}; atom {bad}: {atoms[bad]}', smi)
+                elif hits:
+                    keys.add(zlib.crc32((label + smi).encode()))
+            else:
+                (r1, rad1), rb, (r2, rad2) = refs
+                hits = {(m[nums[0]], m[nums[1]]) for m in maps}
+                exp = set()
+                for k, be in bonds.items():
+                    if Q.bond_matches(rb, be):
+                        x, y = tuple(k)
+                        for u, v in ((x, y), (y, x)):
+                            if Q.atom_matches(r1, atoms[u], rad1) and Q.atom_matches(r2, atoms[v], rad2):
+                                exp.add((u, v))
+                if hits != exp:
+                    bad = sorted(hits ^ exp)[0]
+                    f = 'api-match:pair:' + ('false-hit' if bad in hits else 'missed') + (':ring-bond' if rb['in_ring'] is not None else ':bond')
+                    if mol.has_bond(*bad) and W.special_chord(mol, frozenset(bad)):
+                        f = 'labels-diff:bond-in_ring:special-bond-between-ring-mates'
+                    push(f, label, f'{label} on {smi}: extra {sorted(hits - exp)[:3]} missing {sorted(exp - hits)[:3]}', smi)
+                elif hits:
+                    keys.add(zlib.crc32((label + smi).encode()))
+        # QueryElement.from_atom(atom, flag=True): the query built from an atom matches exactly the atoms sharing the flagged attribute
+        if len(mol) > 30:
+            continue
+        for a0, e0 in atoms.items():
+            base = dict(kind='element', elements=(SYMBOLS[e0['Z'] - 1],), isotope=e0['isotope'], charge=e0['charge'], stereo=None, mapping=0, neighbors=(),
+                        implicit_hydrogens=(), heteroatoms=(), hybridization=(), ring_sizes=(), masked=False)
+            for flag in FROM_ATOM_FLAGS:
+                n += 1
+                ref = dict(base)
+                alt = None
+                if flag == 'neighbors':
+                    ref['neighbors'] = (e0['D'],)
+                elif flag == 'hybridization':
+                    ref['hybridization'] = (e0['z'],)
+                elif flag == 'heteroatoms':
+                    ref['heteroatoms'] = (e0['x'],)
+                elif flag == 'hydrogens':
+                    if e0['h'] is not None:
+                        ref['implicit_hydrogens'] = (e0['h'],)
+                elif e0['rings']:
+                    ref['ring_sizes'] = tuple(sorted(e0['rings']))
+                else:   # chain atom: "no constraint" and "not in a ring" are both admissible readings
+                    alt = dict(base, ring_sizes=(0,))
+                label = f'QueryElement.from_atom(atom {a0}, {flag}=True)'
+                cls = f'{flag}:' + ('ring-atom' if e0['in_ring'] else 'chain-atom')
+                try:
+                    qa = QueryElement.from_atom(mol.atom(a0), **{flag: True})
+                    q = QueryContainer(label)
+                    q.add_atom(qa, 1)
+                    hits = {m[1] for m in q.get_mapping(mol, automorphism_filter=False, _cython=False)}
+                except Exception as e:
+                    push(f'api-from_atom:exc:{type(e).__name__}@{_where(e)}:{cls}', label, f'{type(e).__name__}: {e} on {smi}', smi)
+                    continue
+                rad = e0['radical']
+                exp = {a for a, e in atoms.items() if Q.atom_matches(ref, e, rad)}
+                exp2 = {a for a, e in atoms.items() if Q.atom_matches(alt, e, rad)} if alt else exp
+                if hits != exp and hits != exp2:
+                    push(f'api-from_atom:match:{cls}', label, f'{label} on {smi}: hits {sorted(hits)} expected {sorted(exp)}', smi)
+                else:
+                    keys.add(zlib.crc32((cls + repr(Q.env_key(e0))).encode()))
+    return n, list(keys), fam, []
+
+
+# ---- (6) labels of edited molecules ----------------------------------------------------------------------------------------------------
+EDIT_QUERIES = ['[A;D1]', '[A;D2]', '[A;D3]', '[A;D4]', '[A;x1]', '[A;x2]', '[A;z2]', '[A;z3]', '[A;a]', '[A;!R]', '[A;r3]', '[A;r4]', '[A;r5]', '[A;r6]',
+                '[A]-;@[A]', '[A]-;!@[A]', '[A]=,:;@[A]', '[A]!-;!@[A]']
+
+
+def _nonbonded_pair(m, r):
+    ns = list(m._atoms)
+    if len(ns) < 2:
+        return None
+    for _ in range(20):
+        a, b = r.sample(ns, 2)
+        if not m.has_bond(a, b):
+            return a, b
+    return None
+
+
+def _apply(op, m, r):
+    """play one public editing operation on the molecule; -> molecule to continue with (None: not applicable)"""
+    smiles = _S['smiles']
+    if op in ('add_bond', 'add_special', 'add_double'):
+        p = _nonbonded_pair(m, r)
+        if p is None:
+            return None
+        m.add_bond(p[0], p[1], 8 if op == 'add_special' else (r.choice((2, 3)) if op == 'add_double' else 1))
+        return m
+    if op == 'delete_bond':
+        bs = [(a, b) for a, b, _ in m.bonds()]
+        if not bs:
+            return None
+        m.delete_bond(*r.choice(bs))
+        return m
+    if op == 'delete_atom':
+        if len(m) < 2:
+            return None
+        m.delete_atom(r.choice(list(m._atoms)))
+        return m
+    if op == 'add_atom_bond':
+        old = r.choice(list(m._atoms))
+        n = m.add_atom(r.choice(('C', 'N', 'O', 'Cl', 'H')))
+        m.add_bond(n, old, 1)
+        return m
+    if op == 'transaction':
+        with m:
+            old = r.choice(list(m._atoms))
+            n = m.add_atom(r.choice(('C', 'N', 'O')))
+            m.add_bond(n, old, 1)
+            p = _nonbonded_pair(m, r)
+            if p is not None:
+                m.add_bond(p[0], p[1], r.choice((1, 8)))
+            if r.random() < .5 and m.bonds_count > 1:
+                m.delete_bond(*r.choice([(a, b) for a, b, _ in m.bonds() if n not in (a, b)] or [(n, old)]))
+        return m
+    if op == 'copy':
+        return m.copy()
+    if op == 'substructure':
+        start = r.choice(list(m._atoms))
+        keep, front = {start}, {start}
+        for _ in range(r.randint(1, 3)):
+            front = {y for x in front for y in m._bonds[x]} - keep
+            keep |= front
+        return m.substructure(keep)
+    if op == 'split_union':
+        parts = m.split()
+        if len(parts) < 2:
+            return None
+        u = parts[0]
+        for p in parts[1:]:
+            u = u | p
+        return u
+    if op == 'union_new':
+        return m.union(smiles(r.choice(('C1CC1', 'c1ccccc1', 'O', 'C=O'))), remap=True)
+    if op == 'remap':
+        ns = list(m._atoms)
+        new = r.sample(range(1, 3000), len(ns))
+        if r.random() < .5:
+            new.sort(reverse=True)
+        m.remap(dict(zip(ns, (x + 5000 for x in new))))
+        return m
+    if op == 'kekule':
+        m.kekule()
+        return m
+    if op == 'thiele':
+        m.thiele()
+        return m
+    if op == 'explicify':
+        m.kekule()
+        m.explicify_hydrogens()
+        return m
+    if op == 'implicify':
+        m.kekule()
+        m.implicify_hydrogens()
+        return m
+    raise AssertionError(op)
+
+
+def _label_diffs(m, op):
+    """-> [(family, detail)] labels stored by the library vs independent attributes of a fresh container with the same atoms and bonds"""
+    from oracles import o08_whole as W
+    la, lb = W.library_labels(m)
+    ea, eb = W.expected_labels(W.fresh_environment(m))
+    out = []
+    unique, gap = _ring_domain(m)
+    for n in ea:
+        for k, name in enumerate(W.LABEL_NAMES):
+            if name == 'ring_sizes' and not unique or name in ('ring_sizes', 'in_ring') and gap:
+                continue   # several minimum cycle bases: which sizes an atom gets depends on the basis picked (C06), not comparable
+            if la[n][k] != ea[n][k]:
+                out.append((f'labels-diff:{name}:after-{op}', f'atom {n} {name}: stored {_plain(la[n][k])}, independent {_plain(ea[n][k])}'))
+    for k in eb:
+        if gap:
+            break
+        if lb[k] != eb[k]:
+            f = 'labels-diff:bond-in_ring:' + ('special-bond-between-ring-mates' if W.special_chord(m, k) else f'after-{op}')
+            out.append((f, f'bond {tuple(sorted(k))} in_ring: stored {lb[k]}, independent {eb[k]}'))
+    return out
+
+
+def _ring_domain(m):
+    """(minimum cycle basis unique, recorded gap of the ring perception C06): ring sizes are compared only where the basis is unique, ring
+    membership only outside the recorded gaps of C06 (theta cores with three long bridges, dense cages: oracles/o06_gaps.py)"""
+    from oracles import o06_gaps as G
+    return _S['W'].mcb_unique(m), G.gap(G.graphs(m)[0])
+
+
+def _plain(v):
+    return sorted(v) if isinstance(v, (set, frozenset)) else v
+
+
+def _w_edits(scripts):
+    S = _setup()
+    Q = S['Q']
+    from bounded.d08_extra import EDIT_MOLS, OPS
+    from oracles import o08_whole as W
+    import random
+    n, keys, fam, failed = 0, set(), {}, {}
+
+    def push(f, text, det, smi):
+        lst = fam.setdefault(f, [0, []])
+        lst[0] += 1
+        lst[1] = sorted(lst[1] + [(len(text) + len(smi), text, det, smi)])[:5]
+    if 'editq' not in _QC:
+        _QC['editq'] = [(t, S['smarts'](t)) for t in EDIT_QUERIES]
+    for i, seed, length in scripts:
+        smi = EDIT_MOLS[i]
+        m = S['smiles'](smi)
+        r = random.Random(seed)
+        played = []
+        for d in _label_diffs(m, 'parse'):
+            push(d[0], f'{smi}: as parsed', d[1], smi)
+        for _ in range(length):
+            op = r.choice(OPS)
+            try:
+                m2 = _apply(op, m, r)
+            except AssertionError:
+                raise
+            except Exception as e:   # a failing editing operation is not this property's contract (C13/C14): the script ends here
+                k = f'{op}:{type(e).__name__}'
+                failed[k] = failed.get(k, 0) + 1
+                m = None   # the state after a failed operation is not defined by this property: nothing more is observed on it
+                break
+            if m2 is None:
+                continue
+            m = m2
+            played.append(op)
+            n += 1
+            script = f'{smi} seed {seed!r}: ' + ' > '.join(played)
+            ds = _label_diffs(m, op)
+            for d in ds:
+                push(d[0], script, d[1], smi)
+            if not ds:
+                keys.add(zlib.crc32((op + str(len(m)) + smi).encode()))
+        if m is None:
+            continue
+        # the observable: queries on the edited molecule against the independent attributes of the fresh container
+        atoms, bonds = W.fresh_environment(m)
+        script = f'{smi} seed {seed!r}: ' + ' > '.join(played)
+        unique, gap = _ring_domain(m)
+        for text, q in _QC['editq']:
+            if ';r' in text and not unique or gap and any(x in text for x in (';r', '!R', '@')):
+                continue
+            n += 1
+            try:
+                maps = list(q.get_mapping(m, automorphism_filter=False, _cython=False))
+            except Exception as e:
+                push(f'labels-match-exc:{type(e).__name__}@{_where(e)}', script, f'{text}: {type(e).__name__}: {e}', smi)
+                continue
+            nums = list(q._atoms)
+            if len(nums) == 1:
+                ref = Q.read_bracket(text[1:-1])
+                hits = {x[nums[0]] for x in maps}
+                exp = {a for a, e in atoms.items() if Q.atom_matches(ref, e)}
+                tag = _spec(ref)[0]
+            else:
+                a1, rest = text[1:].split(']', 1)
+                b, a2 = rest.split('[', 1)
+                r1, rb, r2 = Q.read_bracket(a1), Q.read_bond(b), Q.read_bracket(a2[:-1])
+                hits = {(x[nums[0]], x[nums[1]]) for x in maps}
+                exp = {(u, v) for k, be in bonds.items() if Q.bond_matches(rb, be) for u, v in (tuple(k), tuple(k)[::-1])
+                       if Q.atom_matches(r1, atoms[u]) and Q.atom_matches(r2, atoms[v])}
+                tag = 'bond-in_ring'
+            if hits != exp:
+                f = f'labels-match:{tag}:edited-molecule'
+                bad = sorted(hits ^ exp)[0]
+                if len(nums) == 2 and m.has_bond(*bad) and W.special_chord(m, frozenset(bad)):
+                    f = 'labels-diff:bond-in_ring:special-bond-between-ring-mates'
+                push(f, script, f'{text} on the edited molecule {m}: extra hits {sorted(hits - exp)[:6]} missing {sorted(exp - hits)[:6]}', smi)
+    return n, list(keys), fam, failed
+
+
+# ---- (7) coverage lists: every element, every charge spelling, value ranges, all bond specs ----------------------------------------
+def coverage_brackets():
+    from oracles.o03_refsmiles import SYMBOLS
+    out = []
+    for z, s in enumerate(SYMBOLS, 1):
+        o = SYMBOLS[(z * 7) % 118]
+        out += [s, f'#{z}', f'{s},#{(z * 7) % 118 + 1}', f'#{z},{o}' if o != s else f'#{z}']
+    for c in ('+', '-', '++', '--', '+++', '---', '++++', '----', '+1', '+2', '+3', '+4', '-1', '-2', '-3', '-4'):
+        out += [f'C{c}', f'A{c}', f'N,O{c}', f'#8{c}', f'C;{c}', f'C{c};D1', f'13C{c}:4']
+    out += ['1H', '2H', '3H', '238U', '999C', '100C:1000', 'C:12', 'C:999', 'C:1234', 'C:9999', 'A:42', 'N,O:5', 'M:6', '14C;D3:2', '12C@', '13C@@+', 'C@:3',
+            'C@@;h1:3', 'M;D2;z1', 'M;M', 'A;M;D1', 'C;A', 'C;A;D2', 'C;a;A']
+    for k in 'Dhx':
+        out += [f'A;{k}{v}' for v in range(0, 16)] + [f'C;{k}{v},{k}{v + 1},{k}{v + 2}' for v in range(0, 13)]
+    out += [f'A;z{v}' for v in range(0, 6)] + ['A;z1,z2,z3', 'A;z1,z2,z3,z4', 'A;z4,z1']
+    out += [f'A;r{v}' for v in range(0, 22)] + ['A;r3,r4,r5', 'A;r6,r5', 'A;r5,r6,r7,r8', 'A;r66', 'A;r100']
+    return out
+
+
+MATCH_EXTRA = ['A;D0', 'A;D5', 'A;D6', 'A;h4', 'A;x3', 'A;x4', 'A;r8', 'A;r12', 'A;r3,r5,r6', 'A;D1,D2,D3', 'A;h0,h1,h2,h3', 'A;z1,z2,z3', 'A;z3,z4', 'A;D0,D1',
+               'A-2', 'A+3', 'A+4', 'A-3', 'A-4', 'A++', 'A--', 'O-2', 'Ti+4', 'Al+3', 'N-3', '238U', '235U', '3H', '1H', 'A;r5,r6;D3',
+               'C,N,O;D2;h1,h2', 'Cl,Br,I', 'F,Cl;D1', '#6,N;a', 'M;D0', 'M;D1,D2', 'M;D4', 'M;z1', 'S;D4', 'S;D6', 'P;D5', 'P;D4;x4']
+EXTRA_MOLS2 = ['FS(F)(F)(F)(F)F', 'FP(F)(F)(F)F', '[Ti+4]', '[O-2]', '[Al+3]', '[N-3]', '[C-4]', '[238U]', '[235U]', '[3H][3H]', '[1H]O', 'C1CCCCCCC1', 'C1CCCCCCCCCCC1',
+               'C12CC~1C2', 'N1(CCO2)CCO[B]2OCC1', 'N1(CCO2)CCO[B]~12', '[CH2][CH2] |^1:0,1|', 'C[CH]O |^1:1|', '[O]O |^1:0|', 'OP(O)(O)=O', 'O=S(=O)(O)O',
+               'Cl[Pt](Cl)(Cl)Cl', 'C[Mg]', '[Li]C', 'C1CC1C1CC1', 'C1CC12CC2', 'c1ccc2c(c1)ccc1ccccc12', 'ClC(Cl)(Cl)Cl', 'BrC(Br)Br', 'FCl', 'II']
+RAD_PAIRS = [('[C]-[O] |^1:1|', 'C', '-', 'O', (False, True)), ('[C]-[C] |^1:0|', 'C', '-', 'C', (True, False)),
+             ('[A]-[A] |^1:0,1|', 'A', '-', 'A', (True, True)), ('[C]-[A] |^2:1|', 'C', '-', 'A', (False, True)),
+             ('[A;h2]-,=[A] |^3:0|', 'A;h2', '-,=', 'A', (True, False))]
+PAIR2_ATOMS = [('A', 'A'), ('C', 'A'), ('A;a', 'A;a'), ('C;!R', 'N,O')]
+
+
+def _w_elements(zs):
+    """every element query [Sym] and [#Z] against every single-element molecule"""
+    S = _setup()
+    from oracles.o03_refsmiles import SYMBOLS
+    if 'elmols' not in _QC:
+        ms = {}
+        for z, s in enumerate(SYMBOLS, 1):
+            try:
+                ms[z] = S['smiles'](f'[{s}]')
+            except ValueError:
+                pass
+        _QC['elmols'] = ms
+    n, keys, fam = 0, [], {}
+    for z in zs:
+        s = SYMBOLS[z - 1]
+        o = (z * 7) % 118 + 1
+        for text, exp in ((f'[{s}]', {z}), (f'[#{z}]', {z}), (f'[{s},#{o}]', {z, o}), (f'[#{z},{SYMBOLS[o - 1]}]', {z, o})):
+            if len(exp) == 1 and ',' in text:
+                continue
+            n += 1
+            try:
+                q = S['smarts'](text)
+                hits = {t for t, m in _QC['elmols'].items() if any(True for _ in q.get_mapping(m, _cython=False))}
+            except Exception as e:
+                lst = fam.setdefault(f'smarts-match-exc:{type(e).__name__}@{_where(e)}', [0, []])
+                lst[0] += 1
+                lst[1] = sorted(lst[1] + [(len(text), text, f'{type(e).__name__}: {e}', 'single-element molecules')])[:5]
+                continue
+            exp = exp & set(_QC['elmols'])
+            if hits != exp:
+                lst = fam.setdefault('smarts-match:' + ('false-hit:element' if hits - exp else 'missed:element'), [0, []])
+                lst[0] += 1
+                lst[1] = sorted(lst[1] + [(len(text), text, f'{text} hits the single-atom molecules of Z={sorted(hits)}, documented {sorted(exp)}',
+                                           '[' + SYMBOLS[sorted(hits ^ exp)[0] - 1] + ']')])[:5]
+            else:
+                keys.append('el:' + text)
     return n, keys, fam, []
+
+
+def _w_list(items):
+    _setup()
+    acc = _Acc()
+    for kind, t in items:
+        if kind == 'br':
+            acc.note('[' + t + ']', judge_bracket(t))
+        else:
+            acc.note('C' + t + 'N', judge_bond(t))
+    return acc.result()
+
+
+BOND_CONTEXTS = [('[C]{}[N]', 'bracket'), ('C1{}NO1', 'after-closure'), ('C({}N)O', 'in-branch'), ('C(O){}N', 'after-branch'), ('C{}1ON1', 'closure-open'),
+                 ('C1ON{}1', 'closure-close'), ('C%11ON{}%11', 'closure-percent'), ('Cl{}Br', 'two-letter')]
+
+
+def judge_bond_in(ctx, text):
+    """the bond text between the first and the last... atom pair of the context: same contract as judge_bond, other surroundings"""
+    S = _S or _setup()
+    Q = S['Q']
+    tpl, name = ctx
+    s = tpl.format(text)
+    try:
+        ref = Q.read_bond(text)
+        verdict = 'accept'
+    except Q.Reject as e:
+        ref, verdict = None, 'reject:' + e.args[0]
+    except Q.Unspecified as e:
+        ref, verdict = None, 'unspecified:' + e.args[0]
+    if verdict == 'accept' and ref.get('direction') and 'closure' in name:
+        verdict = 'unspecified:directional-closure'
+    try:
+        q = S['smarts'](s)
+    except S['Bad'] as e:
+        if verdict == 'accept':
+            return 'violation', f'smarts-reject:{type(e).__name__}@{_where(e)}:{name}', f'documented SMARTS rejected: {type(e).__name__}: {e}'
+        return 'rejected', None, verdict
+    except Exception as e:
+        return 'violation', f'smarts-exc:{type(e).__name__}@{_where(e)}:bond:{_input_class(verdict)}', f'{type(e).__name__}: {e} (reference: {verdict})'
+    if verdict.startswith('unspecified'):
+        return 'unspecified', None, verdict
+    if verdict.startswith('reject'):
+        return 'violation', f'smarts-accept:bond:{verdict[7:]}', f'unsupported SMARTS bond ({verdict[7:]}) accepted in {s}'
+    nums = list(q._atoms)
+    pair = {'bracket': (0, 1), 'after-closure': (0, 1), 'in-branch': (0, 1), 'after-branch': (0, 2), 'closure-open': (0, 2), 'closure-close': (0, 2),
+            'closure-percent': (0, 2), 'two-letter': (0, 1)}[name]
+    n, m = nums[pair[0]], nums[pair[1]]
+    if not q.has_bond(n, m):
+        return 'violation', f'smarts-diff:bond-missing:{name}', f'{s}: no bond between atoms {pair}'
+    b = q.bond(n, m)
+    if tuple(b.order) != ref['order']:
+        return 'violation', f'smarts-diff:bond-order:{name}', f'{s}: order built {b.order}, documented {ref["order"]}'
+    if b.in_ring != ref['in_ring']:
+        return 'violation', f'smarts-diff:bond-in_ring:{name}', f'{s}: in_ring built {b.in_ring}, documented {ref["in_ring"]}'
+    others = [x for u, v, x in q.bonds() if {u, v} != {n, m}]
+    if any(tuple(x.order) != (1,) or x.in_ring is not None for x in others):
+        return 'violation', f'smarts-diff:bond-leak:{name}', f'{s}: the other bonds became {[repr(x) for x in others]}'
+    return 'accepted', None, None
+
+
+def _w_bond_ctx(args):
+    ci, prefix, depth = args
+    _setup()
+    acc = _Acc()
+    ctx = BOND_CONTEXTS[ci]
+    for k in range(depth + 1):
+        for suf in itertools.product(BOND_CHARS, repeat=k):
+            t = prefix + ''.join(suf)
+            acc.note(ctx[0].format(t), judge_bond_in(ctx, t))
+    return acc.result()
 
 
 # ---- driver -------------------------------------------------------------------------------------------------------------------
@@ -516,8 +1373,33 @@ def bounded(run):
     KB = 4 if quick else 5
     res += pmap(_w_bonds, [('', 1)] + [(a + b, KB - 2) for a in BOND_CHARS for b in BOND_CHARS], chunksize=4)
     run.bound(f'bond strings C<b>N: all {sum(len(BOND_CHARS) ** k for k in range(0, KB + 1))} strings b of 0..{KB} characters over {"".join(BOND_CHARS)!r}')
-    res += [_w_anchors(None)]
-    run.bound(f'anchors: {len(ANCHORS_BR)} bracket and {len(ANCHORS_BOND)} bond strings (shortest witnesses of every family reproduced on the pinned tree)')
+    # audit extension: contexts of bond texts, coverage lists, whole strings from templates, raises-contract fuzz over whole strings
+    from bounded import d08_extra as D
+    KC = 3 if quick else 4
+    res += pmap(_w_bond_ctx, [(ci, '', 1) for ci in range(len(BOND_CONTEXTS))] + [(ci, a + b, KC - 2) for ci in range(len(BOND_CONTEXTS))
+                                                                                 for a in BOND_CHARS for b in BOND_CHARS], chunksize=16)
+    run.bound(f'bond texts in context: all {sum(len(BOND_CHARS) ** k for k in range(0, KC + 1))} strings of 0..{KC} characters in each of '
+              f'{[c[0] for c in BOND_CONTEXTS]} (after a bracket atom, after a closure digit, in / after a branch, on the opening / closing digit, %nn)')
+    cov = [('br', x) for x in coverage_brackets()]
+    res += pmap(_w_list, _chunks(cov, 64))
+    run.bound(f'coverage brackets: {len(cov)} strings: every element as symbol, #Z and in lists, all 16 charge spellings on 7 carriers, isotope / mapping '
+              f'digit lengths, every value 0..15 of D h x, z0..5, r0..21, lists of three')
+    nw = 8000 if quick else 100000
+    whole = D.whole_strings(nw, 'b08-whole')
+    res += pmap(_w_whole, _chunks(whole, 250))
+    run.bound(f'whole strings: {nw} seeded strings from {len(D.SHAPES)} templates (chains, branches, nested branches, rings with the closure bond on the '
+              f'opening / closing / both digits, %nn, fused and bicyclic closures, components) x {len(D.ATOMS)} atom texts x {len(D.bond_texts())} bond '
+              f'texts, 12 % implicit bonds, 25 % with CXSMARTS radicals ^1..^7; at most one anomaly (duplicate mapping, radical index out of range, '
+              f'radical on [M]) per string')
+    A1 = D.WHOLE_ALPHABET
+    KF = 3 if quick else 4
+    res += pmap(_w_fuzz, [(A1, (), 1)] + [(A1, (a, b), KF - 2) for a in A1 for b in A1], chunksize=16)
+    A2 = D.WHOLE_SLICE
+    KF2 = 4 if quick else 5
+    res += pmap(_w_fuzz, [(A2, (a, b), KF2 - 2) for a in A2 for b in A2], chunksize=8)
+    run.bound(f'whole-string fuzz (raises-contract only): all strings of 0..{KF} tokens over {A1} and of 2..{KF2} tokens over {A2}')
+    res += [_w_anchors(None), _w_whole_anchors(None)]
+    run.bound(f'anchors: {len(D.WHOLE_ANCHORS)} whole strings under the raises-contract, {len(ANCHORS_BR)} bracket and {len(ANCHORS_BOND)} bond strings (shortest witnesses of every family reproduced on the pinned tree)')
     for n, keys, st, f, samples in res:
         run.case(n)
         run.nontrivial.update(keys)
@@ -555,8 +1437,10 @@ def bounded(run):
                 nel += 1
             except ValueError:
                 pass
-        for s in EXTRA_MOLS:
+        for s in EXTRA_MOLS + EXTRA_MOLS2:
             mols.append((s, S['smiles'](s)))
+        from chython.containers import MoleculeContainer
+        mols.append(('(molecule without atoms)', MoleculeContainer()))
         _QC['mols'] = mols
         res = pmap(_w_match, _chunks(list(range(len(mols))), 6 if quick else 12))
         for n, keys, f, samples in res:
@@ -570,22 +1454,95 @@ def bounded(run):
         run.bound(f'matching: {na} single-atom queries (12 element specs x 31 primitives, all cross-kind primitive pairs on [A] and [C], charge / isotope / '
                   f'radical variants) + {len(qs) - na} two-atom queries ({len(PAIR_ATOMS)}^2 atom pairs x {len(PAIR_BONDS)} bond specs) x {len(mols)} molecules: '
                   f'{200 if quick else 1500} corpus (kekule+thiele), {len(raw)} corpus as parsed, {nat} decorated atlas graphs <= {6 if quick else 7} nodes, '
-                  f'{nel} single-element molecules, {len(EXTRA_MOLS)} hand-written (metals, special bonds, isotopes, radicals, cumulenes, small rings)')
-    tm['matching'] = round(time.time() - t0, 1)
+                  f'{nel} single-element molecules, {len(EXTRA_MOLS) + len(EXTRA_MOLS2)} hand-written (metals, special bonds, isotopes, radicals, '
+                  f'cumulenes, small and large rings, D5/D6 centres, highly charged ions, special bonds inside rings); audit extension: '
+                  f'{len(MATCH_EXTRA)} boundary-value atom queries, every determined bond text ({len(D.bond_texts())}) on {len(PAIR2_ATOMS)} atom pairs, '
+                  f'{len(RAD_PAIRS)} two-atom queries with CXSMARTS radicals on either atom')
+        tm['matching'] = round(time.time() - t0, 1)
+
+        # (4) whole strings matched, (5) API-built queries, (7) element matrix -----------------------------------------------------------
+        t0 = time.time()
+        nm = 600 if quick else 5000
+        ms = D.match_strings(nm, 'b08-wmatch')
+        for n, keys, f, _ in pmap(_w_wmatch, [(c, 30 if quick else 40) for c in _chunks(ms, 25)]):
+            run.case(n)
+            run.nontrivial.update(keys)
+            _merge_fam(fam, f)
+        run.bound(f'whole strings matched: {nm} seeded template strings ({len(D.MATCH_ATOMS)} atom texts, {len(D.MATCH_BONDS)} bond texts, no implicit '
+                  f'bond, 10 % with radicals) x {30 if quick else 40} seeded molecules each (<= 60 atoms) against the reference embeddings')
+        for n, keys, f, _ in pmap(_w_elements, _chunks(list(range(1, 119)), 8)):
+            run.case(n)
+            run.nontrivial.update(keys)
+            _merge_fam(fam, f)
+        run.bound('element matrix: [Sym], [#Z], [Sym,#Z\'], [#Z,Sym\'] for every Z in 1..118 x the single-atom molecule of every element')
+        tm['whole-match'] = round(time.time() - t0, 1)
+        t0 = time.time()
+        api = api_queries()
+        for n, keys, f, _ in pmap(_w_api, _chunks(list(range(len(mols))), 8 if quick else 16)):
+            run.case(n)
+            run.nontrivial.update(keys)
+            _merge_fam(fam, f)
+        run.bound(f'API-built queries: {len(api)} containers (QueryElement.from_symbol / from_atomic_number / AnyElement / ListElement with str and int '
+                  f'members / AnyMetal with int, list and tuple valued keywords; add_atom(str | int | Element | Query); copies; add_bond(int | tuple | list | '
+                  f'set | Bond | QueryBond with in_ring | QueryBond.from_bond)) x {len(mols)} molecules; QueryElement.from_atom(atom, flag=True) for '
+                  f'{len(FROM_ATOM_FLAGS)} flags x every atom of the molecules with <= 30 atoms')
+        tm['api'] = round(time.time() - t0, 1)
+
+    # (6) labels of edited molecules ---------------------------------------------------------------------------------------------------
+    t0 = time.time()
+    scripts = D.edit_scripts(10 if quick else 80, 6 if quick else 8, 'b08-edit')
+    failed = {}
+    for n, keys, f, fl in pmap(_w_edits, _chunks(scripts, 10)):
+        run.case(n)
+        run.nontrivial.update(keys)
+        _merge_fam(fam, f)
+        for k, v in fl.items():
+            failed[k] = failed.get(k, 0) + v
+    run.bound(f'labels under edits: {len(scripts)} seeded scripts of <= {6 if quick else 8} operations from {D.OPS} on {len(D.EDIT_MOLS)} molecules; after '
+              f'every operation all atom labels (neighbors, heteroatoms, hybridization, ring_sizes, in_ring) and bond in_ring marks against a fresh '
+              f'container, after the script {len(EDIT_QUERIES)} queries; ring sizes only where the minimum cycle basis is unique')
+    run.assume('the independent attributes of an edited molecule are determined on a fresh container with the same atoms and bonds (oracles/'
+               'o08_whole.py fresh_copy); an editing operation that raises ends the script (not this property)',
+               'substructure semantics of multi-atom queries as in C07: injective, every query bond has an image satisfying it, no other target bond '
+               'between images of one query component, different query components in different target components',
+               'a duplicated atom mapping may be rejected with the library\'s MappingError as well as with the invalid-SMARTS error',
+               'allene marks in queries: the oracle is the library\'s molecule reader (C03 / C12): a complete allene query matches iff both texts '
+               'give the same canonical string')
+    run.notes['b08_edit_operations_that_raised'] = failed
+    tm['edits'] = round(time.time() - t0, 1)
 
     # (3) stereo -----------------------------------------------------------------------------------------------------------------
     t0 = time.time()
     cases = stereo_cases()
-    for n, keys, f, _ in pmap(_w_stereo, _chunks(cases, 40)):
+    members = {}
+    for n, keys, f, mm in pmap(_w_stereo, _chunks(cases, 40)):
         run.case(n)
         run.nontrivial.update(keys)
         _merge_fam(fam, f)
+        for k, (a, b) in mm.items():
+            e = members.setdefault(k, [0, 0])
+            e[0] += a
+            e[1] += b
     run.bound(f'stereo marks: {len(cases)} (query spelling, target) pairs: all 24 neighbour orders x @/@@ in chain and first-atom position, three-neighbour '
-              f'centres, ring-closure spellings, cis/trans spellings')
+              f'centres, 12 ring-closure spellings x both substituent orders, cis/trans spellings, centres numbered by atom mapping, targets with an '
+              f'explicit hydrogen atom, allenes')
     tm['stereo'] = round(time.time() - t0, 1)
 
-    run.notes['b08_outcomes'] = dict(sorted(stats.items(), key=lambda kv: -kv[1])[:30])
+    cm = {k[14:]: v for k, v in stats.items() if k.startswith('class-members:')}
+    run.notes['b08_outcomes'] = dict(sorted(((k, v) for k, v in stats.items() if not k.startswith('class-members:')), key=lambda kv: -kv[1])[:30])
     run.notes['b08_seconds'] = tm
+    if os.environ.get('B08_DEBUG'):
+        import sys
+        print('b08 seconds', tm, file=sys.stderr)
+    # tightness of the families: members of the input class of the key (independent predicate) / how many of them produce this key
+    tight = {}
+    for k, (cnt, _) in fam.items():
+        if k.startswith('smarts-exc:'):
+            c = k.split(':', 3)[3]
+            tight[k] = [cm.get(c, 0), cnt]
+    for k, (a, b) in members.items():
+        tight[k] = [a, b]
+    run.notes['b08_tightness_members_failing'] = tight
     for k in sorted(fam):
         cnt, lst = fam[k]
         _, s, det, *mol = lst[0]
@@ -596,24 +1553,71 @@ def bounded(run):
         run.violation(k, f'C08 family {k}: {cnt} case(s), shortest {s!r}: {det}', witness=w, native=det)
 
 
+def _replay_mol(smi):
+    from bounded.domains import parse
+    S = _S
+    if smi == '(molecule without atoms)':
+        from chython.containers import MoleculeContainer
+        return MoleculeContainer()
+    if smi.endswith(' (as parsed)'):
+        return S['smiles'](smi[:-12])
+    if smi in EXTRA_MOLS or smi in EXTRA_MOLS2 or (smi.startswith('[') and smi.endswith(']') and smi.count('[') == 1):
+        return S['smiles'](smi)
+    return parse(smi)
+
+
 def replay(rec):
+    import re
     S = _setup()
     Q = S['Q']
     w = rec['witness']
+    key = rec['key']
+    env.SEED = int(rec.get('seed', env.SEED) or 0)   # the seeded domains of the recorded run
+    quick = rec.get('tier', 'quick') == 'quick'
+    from bounded import d08_extra as D
     ok = True
-    if w.get('molecule'):   # matching witness: (query, molecule) pairs
-        from bounded.domains import parse
-        for text, smi in zip(w['examples'], w['example_molecules']):
-            mol = S['smiles'](smi[:-12]) if smi.endswith(' (as parsed)') else parse(smi)
+    examples = list(w.get('examples', ()))
+    mols = list(w.get('example_molecules', ()))
+
+    def show(fam):
+        for k, (cnt, lst) in fam.items():
+            for x in lst:
+                print('  ', k, '|', x[1], '|', x[2])
+        return not fam
+    if examples and " seed '" in examples[0]:   # edit scripts
+        scripts = []
+        for e in examples:
+            m = re.match(r"(.*) seed '([^']*)': ", e)
+            if m:
+                scripts.append((D.EDIT_MOLS.index(m.group(1)), m.group(2), 6 if quick else 8))
+        return show(_w_edits(scripts)[2])
+    if examples and examples[0].startswith(('QueryElement.from_atom', 'api')):
+        _QC['mols'] = [(smi, _replay_mol(smi)) for smi in dict.fromkeys(mols)]
+        fam = _w_api(list(range(len(_QC['mols']))))[2]
+        return show({k: v for k, v in fam.items() if k == key})
+    if key.startswith('smarts-stereo'):
+        n, keys, fam, _ = _w_stereo([c for c in stereo_cases() if c[0] in examples])
+        return show(fam)
+    if mols and mols[0] == 'single-element molecules' or key.endswith(':element'):
+        return show(_w_elements(list(range(1, 119)))[2])
+    if mols:   # matching witness: (query, molecule) pairs
+        recs = {r['text']: r for r in D.match_strings(600 if quick else 5000, 'b08-wmatch')}
+        for text, smi in zip(examples, mols):
+            mol = _replay_mol(smi)
+            if text in recs and text.count('[') + sum(text.count(x) for x in 'CNO') > 2:
+                _QC['mols'] = [(smi, mol)]
+                _QC.pop('views', None)
+                ok = show(_w_wmatch(([recs[text]], 1))[2]) and ok
+                continue
             q = S['smarts'](text)
             atoms, bonds = Q.environment(mol)
-            body = text.split()[0]
-            rad = '|^1:0|' in text
+            body, *cx = text.split()
+            rads = {int(i) for x in re.findall(r'\^[1-7]:([0-9,]+)', ' '.join(cx)) for i in x.split(',')}
             maps = list(q.get_mapping(mol, automorphism_filter=False, _cython=False))
             if body.count('[') == 1:
                 ref = Q.read_bracket(body[1:-1])
                 hits = {m[next(iter(q._atoms))] for m in maps}
-                exp = {a for a, e in atoms.items() if Q.atom_matches(ref, e, rad)}
+                exp = {a for a, e in atoms.items() if Q.atom_matches(ref, e, 0 in rads)}
             else:
                 a1, rest = body[1:].split(']', 1)
                 b, a2 = rest.split('[', 1)
@@ -621,23 +1625,37 @@ def replay(rec):
                 q1, q2 = list(q._atoms)
                 hits = {(m[q1], m[q2]) for m in maps}
                 exp = {(u, v) for k, be in bonds.items() if Q.bond_matches(rb, be) for u, v in (tuple(k), tuple(k)[::-1])
-                       if Q.atom_matches(r1, atoms[u]) and Q.atom_matches(r2, atoms[v])}
+                       if Q.atom_matches(r1, atoms[u], 0 in rads) and Q.atom_matches(r2, atoms[v], 1 in rads)}
             print(f'  {text} on {smi}: hits {sorted(hits)} expected {sorted(exp)}')
             ok = ok and hits == exp
         return ok
-    if rec['key'].startswith('smarts-stereo'):
-        n, keys, fam, _ = _w_stereo([c for c in stereo_cases() if c[0] in w['examples']])
-        for k, (cnt, lst) in fam.items():
-            for x in lst:
-                print('  ', x[2])
-        return not fam
-    for s in [w['smarts']] + list(w.get('examples', ())):
-        if s.startswith('[') and s.endswith(']') and '[' not in s[1:]:
+    whole = None
+    for s in dict.fromkeys([w['smarts']] + examples):
+        if s.startswith('[') and s.endswith(']') and '[' not in s[1:] and ']' not in s[:-1]:
             st, fam, det = judge_bracket(s[1:-1])
-        elif s.startswith('C') and s.endswith('N') and '[' not in s:
+        elif s.startswith('C') and s.endswith('N') and '[' not in s and len(s) > 1 and not any(c in s[1:-1] for c in 'CNOl()1%'):
             st, fam, det = judge_bond(s[1:-1])
         else:
-            continue
+            st = None
+            for ctx in BOND_CONTEXTS:   # a bond text in one of the contexts
+                a, b = ctx[0].split('{}')
+                if s.startswith(a) and s.endswith(b) and len(s) >= len(a) + len(b) and all(c in BOND_CHARS for c in s[len(a):len(s) - len(b)]):
+                    st, fam, det = judge_bond_in(ctx, s[len(a):len(s) - len(b)])
+                    break
+            if st is None:
+                if whole is None:
+                    whole = {r['text']: r for r in D.whole_strings(8000 if quick else 100000, 'b08-whole')}
+                if s in whole:
+                    st, fam, det = judge_whole(whole[s])
+                else:   # whole-string fuzz: raises-contract only
+                    from chython.exceptions import MappingError
+                    try:
+                        S['smarts'](s)
+                        st, fam, det = 'accepted', None, None
+                    except (S['Bad'], MappingError) as e:
+                        st, fam, det = 'rejected', None, f'{type(e).__name__}: {e}'
+                    except Exception as e:
+                        st, fam, det = 'violation', f'smarts-exc:{type(e).__name__}@{_where(e)}', f'{type(e).__name__}: {e}'
         print(f'  {s!r}: {st} {fam or ""} {det or ""}')
         ok = ok and st != 'violation'
     return ok
